@@ -94,8 +94,71 @@ def tasks(tier, seed):
         for c in range(1, (3 if tier == 'quick' else 4) + 1):
             ts.append({'harness': 'oracle-validation', 'r': r, 'c': c, 'tier': tier, 'seed': seed, 'est': 2000 * r * c})
     ts.append({'harness': 'innerdistance-units', 'tier': tier, 'seed': seed, 'est': 1})
+    for k in range(4 if tier == 'quick' else 16):
+        ts.append({'harness': 'translator-validation', 'part': k, 'tier': tier, 'seed': seed, 'est': 500})
     ts.sort(key=lambda t: -t.get('est', 0))
     return ts
+
+
+def _translator_validation(cfg):
+    """concrete traces: dtw.distance / warping_paths on pinned proxies vs. the same routines on floats in a clean interpreter"""
+    from engine import validate
+    from engine.runner import REPO
+    import os
+    dtw, innerdistance, ed = dtwh.load('dtw', 'innerdistance', 'ed')
+    rnd = random.Random(cfg['seed'] * 7919 + cfg['part'])
+    stats = smt.Stats()
+    trials, calls = [], []
+    for _ in range(25):
+        r, c = rnd.randint(1, 5), rnd.randint(1, 5)
+        v1, v2 = validate.grid_values(rnd, r), validate.grid_values(rnd, c)
+        kw = {}
+        if rnd.random() < .5:
+            kw['window'] = rnd.randint(1, 4)
+        if rnd.random() < .4:
+            kw['penalty'] = rnd.choice([0.25, 0.5, 1.0])
+        if rnd.random() < .4:
+            psi = tuple(rnd.randint(0, min(2, n_)) for n_ in (r, r, c, c))
+            if not spec.psi_degenerate(r, c, psi):
+                kw['psi'] = psi
+        if rnd.random() < .3:
+            kw['max_step'] = rnd.choice([0.75, 1.5, 3.0])
+        if rnd.random() < .3:
+            kw['max_dist'] = rnd.choice([1.0, 2.5, 6.0])
+        if rnd.random() < .2:
+            kw['use_pruning'] = True
+        if rnd.random() < .3:
+            kw['inner_dist'] = 'euclidean'
+        fn = rnd.choice(['distance', 'distance', 'warping_paths'])
+        if fn == 'warping_paths':
+            kw.pop('use_pruning', None)
+        trials.append((fn, v1, v2, kw))
+        calls.append(['dtaidistance.dtw', fn, [v1, v2], kw])
+    real = validate.run_real(calls, os.path.join(REPO, 'src'))
+    bad = []
+    for (fn, v1, v2, kw), want in zip(trials, real):
+        names = ['a%d' % i for i in range(len(v1))] + ['b%d' % j for j in range(len(v2))]
+        s1 = [SReal(z3.Real('a%d' % i)) for i in range(len(v1))]
+        s2 = [SReal(z3.Real('b%d' % j)) for j in range(len(v2))]
+        if fn == 'distance':
+            got = validate.pysym_trace(lambda: dtw.distance(s1, s2, **kw), names, v1 + v2, stats)
+        else:
+            def go():
+                d, m = dtw.warping_paths(pysym.objarray(s1), pysym.objarray(s2), **kw)
+                return [d, m]
+            got = validate.pysym_trace(go, names, v1 + v2, stats)
+        if isinstance(want, dict) or isinstance(got, dict):
+            ok = isinstance(want, dict) and isinstance(got, dict)
+        else:
+            ok = validate.close(got, want, 1e-9)
+        if not ok:
+            bad.append({'fn': fn, 's1': v1, 's2': v2, 'kw': kw, 'encoding': str(got)[:200], 'real': str(want)[:200]})
+    if bad:
+        raise RuntimeError('translator validation: the symbolic run and the real run disagree on %d of %d concrete traces, e.g. %r' % (len(bad), len(trials), bad[0]))
+    stats.queries += len(trials)
+    stats.unsat += len(trials)
+    return {'stats': stats.as_dict(), 'cex': [], 'inconclusive': 0, 'validated': len(trials),
+            'sample': {'harness': cfg['harness'], 'traces': len(trials), 'routines': ['dtw.distance', 'dtw.warping_paths'], 'last': {'fn': fn, 's1': v1, 's2': v2, 'kw': jnum(kw)}}}
 
 
 def _mk(kind, nonp, r, c, tier, seed, chunk, est):
@@ -122,6 +185,8 @@ def run_task(cfg):
         return _oracle_validation(cfg)
     if cfg['harness'] == 'innerdistance-units':
         return _inner_units(cfg)
+    if cfg['harness'] == 'translator-validation':
+        return _translator_validation(cfg)
     dtw, innerdistance, ed = dtwh.load('dtw', 'innerdistance', 'ed')
     kind, r, c, tier = cfg['kind'], cfg['r'], cfg['c'], cfg['tier']
     stats = smt.Stats()
